@@ -46,18 +46,17 @@ def contracts():
                'r == (if p >= q { (x, (y * pow10((p - q) as nat)) as i128) } else { ((x * pow10((q - p) as nat)) as i128, y) })')],
         entry='lemma_pow10_values();')
     d['checked_adjust_coeffs'] = C(
-        pre=['p <= 38', 'q <= 38'],
         post=[('checked_adjust_coeffs.x',
-               'r.0 == (if p >= q { Some(x) } else if in_i128(x * pow10((q - p) as nat)) { Some((x * pow10((q - p) as nat)) as i128) } else { None::<i128> })'),
+               'r.0 == (if p >= q { Some(x) } else if q - p <= 38 && in_i128(x * pow10((q - p) as nat)) { Some((x * pow10((q - p) as nat)) as i128) } else { None::<i128> })'),
               ('checked_adjust_coeffs.y',
-               'r.1 == (if p <= q { Some(y) } else if in_i128(y * pow10((p - q) as nat)) { Some((y * pow10((p - q) as nat)) as i128) } else { None::<i128> })')],
+               'r.1 == (if p <= q { Some(y) } else if p - q <= 38 && in_i128(y * pow10((p - q) as nat)) { Some((y * pow10((p - q) as nat)) as i128) } else { None::<i128> })')],
         entry='lemma_pow10_values();')
     d['i128_div_mod_floor'] = C(
         pre=['y != 0', '!(x == i128::MIN && y == -1)'],
-        post=[('div_mod_floor.identity', 'r.0 * y + r.1 == x'),
-              ('div_mod_floor.rem_range_pos', 'y > 0 ==> 0 <= r.1 < y'),
-              ('div_mod_floor.rem_range_neg', 'y < 0 ==> y < r.1 <= 0')],
-        entry='lemma_rust_div(x as int, y as int); lemma_trunc_div_rem(x as int, y as int); ' + NL_HINT + ';')
+        post=[('div_mod_floor.quot', 'r.0 == floor_quot(x as int, y as int)'),
+              ('div_mod_floor.rem', 'r.1 == floor_rem(x as int, y as int)')],
+        entry=('lemma_rust_div(x as int, y as int); lemma_trunc_div_rem(x as int, y as int); '
+               'lemma_trunc_to_floor(x as int, y as int);'))
     d['rounding::round_quot'] = C(
         pre=['0 < divisor <= i128::MAX as u128', 'rem < divisor', 'rem > 0 ==> quot < i128::MAX'],
         post=[('round_quot.round_div',
@@ -66,7 +65,8 @@ def contracts():
     d['rounding::i128_div_rounded'] = C(
         pre=['divisor != 0', 'divident > i128::MIN', 'divisor > i128::MIN'],
         post=[('i128_div_rounded.round_div',
-               'r == round_div(if divisor < 0 { -(divident as int) } else { divident as int }, abs_int(divisor as int), eff_mode(mode))')])
+               'r == round_div(if divisor < 0 { -(divident as int) } else { divident as int }, abs_int(divisor as int), eff_mode(mode))')],
+        entry=('lemma_floor_div_props(if divisor < 0 { -(divident as int) } else { divident as int }, abs_int(divisor as int));'))
     return d
 
 
